@@ -158,19 +158,4 @@ def wf : E → Bool
   | .acons h tl => isExprHead h && isArgs tl && wf h && wf tl
   | _ => true
 
-/-- Deviation region `relational_chain`: a relational operator whose LEFT operand is an unparenthesised
-    relational expression (`a < b < c`).  ES5: left-associative. -/
-def relChain : E → Bool
-  | .bin o l r => (isRel o && decide (prec l = 9)) || relChain l || relChain r
-  | .un _ e => relChain e
-  | .post _ e => relChain e
-  | .cond c a b => relChain c || relChain a || relChain b
-  | .asg _ l r => relChain l || relChain r
-  | .dot e _ => relChain e
-  | .idx e i => relChain e || relChain i
-  | .call f args => relChain f || relChain args
-  | .new_ f args => relChain f || relChain args
-  | .acons h tl => relChain h || relChain tl
-  | _ => false
-
 end OttoVerif.C03.Spec
